@@ -272,9 +272,11 @@ func (fx *FnCtx) evalSpec(env *Env, e SExpr) Val {
 		pat := ""
 		if len(x.Pats) > 0 {
 			var ps []string
+			fx.inPattern = true
 			for _, p := range x.Pats {
 				ps = append(ps, fx.evalSpec(n, p).T)
 			}
+			fx.inPattern = false
 			body = "(! " + body + " :pattern (" + strings.Join(ps, " ") + "))"
 		}
 		_ = pat
@@ -659,6 +661,9 @@ func (fx *FnCtx) specCall(env *Env, c *SCall) Val {
 		dom, _, ks, _ := fx.sc.mapSorts(mt)
 		k = fx.coerce(k, ks, mt.Key())
 		h := fx.heapArr(env.heap, dom, "(Array Int (Array "+ks+" Bool))")
+		if fx.inPattern {
+			return Val{"(select (select " + h + " " + m.T + ") " + k.T + ")", "Bool", tBool}
+		}
 		return Val{"(and (not (= " + m.T + " 0)) (select (select " + h + " " + m.T + ") " + k.T + "))", "Bool", tBool}
 	case "mapdom", "mapval":
 		m := arg(0)
